@@ -334,6 +334,30 @@ def check_scaled_display():
             if len(shown) < 6 or any(x != want for x in shown):
                 out.append(("C11:scaled-number-shown-wrong", "{%s} scaled by %r must read %r in every cell; cells show %r" % (text, k, want, shown)))
                 break
+    # the stand-alone page at a requested serving count: the ratio count / stated count is exact, so exact amounts stay exact
+    import shutil
+    from pathlib import Path
+    from .. import gen_site
+    from recipe_grid.static_site.standalone_page import generate_standalone_page
+    scratch = gen_site.scratch_root()
+    try:
+        for native, quantities in ((3, [1, 2, 5]), (6, [1, 4]), (7, [3]), (12, [5, 7]), (4, [1, 3])):
+            f = Path(scratch) / ("stew%d.md" % native)
+            f.write_text("# Stew for %d\n\n" % native + "".join("    %d onions%d\n" % (q, i) for i, q in enumerate(quantities)))
+            for target in (1, 2, 4, 5, 8):
+                page = generate_standalone_page(f, servings=target, embed_local_links=False)
+                root, _ = htmltok.tree(page)
+                cells = [" ".join(n.text().replace("\u2044", "/").split()) for n in root.iter() if n.tag == "td" and "rg-ingredient" in n.classes()]
+                want = [own_format(Fraction(q * target, native)) for q in quantities]
+                got = [c.rsplit(" onions", 1)[0] for c in cells]
+                if None not in want and got != want:
+                    out.append(("C11:scaled-number-shown-wrong", "stand-alone page of a recipe for %d at %d servings shows %r, exactly %r" % (native, target, got, want)))
+                    break
+            else:
+                continue
+            break
+    finally:
+        shutil.rmtree(scratch, ignore_errors=True)
     # through the Markdown front end (MarkdownRecipe.render), with decimal factors that are not short fractions
     from recipe_grid.markdown import compile_markdown
     vals = [4500, 30000, 250, 3, Fraction(1, 2), 2.5]
